@@ -536,7 +536,9 @@ def mapLoop (m : Nat) : List Item → Pool → Pool
   | [], p => (p.modReq m fun x => { x with items := [] }).finishMeta m .ok
   | it :: rest, p =>
     let p := p.pullItem m rest
-    if it.bad then mapLoop m rest (p.modReq m fun x => { x with skipped := x.skipped + 1 })
+    -- the iterator itself raises: the exception leaves `_arg_consumer`, the meta task ends with it
+    if it.raises then p.finishMeta m (.exc (.user 4))
+    else if it.bad then mapLoop m rest (p.modReq m fun x => { x with skipped := x.skipped + 1 })
     else if (p.reqs[m]?.getD default).mapSem.locked then p.waitMapSem m
     else
       let r := (p.takeMapSlot m).mapStartTask m
